@@ -273,7 +273,7 @@ def find_stop_event(rm):
     if ev is not None:
         return ev
     for v in _attrs(rm):
-        if isinstance(v, threading.Event):
+        if isinstance(v, threading.Event) or type(v).__name__ == 'MEvent':
             return v
     raise AttributeError('no stop Event found on the request manager')
 
